@@ -717,7 +717,7 @@ func (d *driver) replayFile(path string) int {
 		}
 	}
 	d.prop = rf.Property
-	if e := engines[rf.Property]; e != nil && e.AuxReplay != nil && strings.HasSuffix(rf.Engine, "/wasm") {
+	if e := engines[rf.Property]; e != nil && e.AuxReplay != nil && (strings.HasSuffix(rf.Engine, "/wasm") || strings.HasSuffix(rf.Engine, "/race-detector")) {
 		return e.AuxReplay(d, &rf, path)
 	}
 	req := &Request{Kind: "replay", Prop: rf.Property, Tier: rf.Tier, Choices: rf.Choices, Keep: true, Active: d.active, Trial: rf.Trial, Seed: rf.TrialSeed}
